@@ -278,13 +278,81 @@ def _observe_history(case, std=False):
     return {"outs": outs, "log": log}
 
 
+# ---- exits that touch their own stack while it unwinds (pop_all / push from inside an exit) -------------------------------
+# outside the Lean machine ("exits do not register further exits while the stack unwinds"): decided against
+# contextlib.AsyncExitStack, which defines what "moved by pop_all" / "registered late" mean during an unwind
+
+
+def _reentrant_cases():
+    for n in (1, 2, 3, 4):
+        for k in range(n):
+            for act in ("popall", "push", "callback"):
+                for body in (None, BODY_EXC):
+                    for beh in ("F", "T", "R"):
+                        yield {"kind": "reentrant", "n": n, "at": k, "act": act, "body": body, "beh": beh, "entries": {}}
+
+
+def _run_reentrant(case, std):
+    _EXCS.clear()
+    log = []
+    new = contextlib.AsyncExitStack if std else asyncstdlib.ExitStack
+    stack = new()
+    moved = []
+
+    def mk(i):
+        async def ex(et, ev, tb):
+            log.append(["exit", i, getattr(ev, "eid", None) if ev is not None else None])
+            if i == case["at"]:
+                if case["act"] == "popall":
+                    moved.append(stack.pop_all())
+                elif case["act"] == "push":
+                    (stack.push_async_exit if std else stack.push)(mk(100 + i))
+                else:
+                    def late(*a):
+                        log.append(["late-callback", i, list(a)])
+                    stack.callback(late, i)
+                if case["beh"] == "T":
+                    return True
+                if case["beh"] == "R":
+                    raise _exc(400 + i)
+            return False
+        return ex
+
+    async def main():
+        for i in range(case["n"]):
+            (stack.push_async_exit if std else stack.push)(mk(i))
+        try:
+            async with stack:
+                if case["body"] is not None:
+                    raise _exc(case["body"])
+        except (UserExc, UserBaseExc) as exc:
+            log.append(["block-raised", exc.eid])
+        log.append(["after-block"])
+        for m in moved:
+            try:
+                await m.aclose()
+            except (UserExc, UserBaseExc) as exc:
+                log.append(["moved-raised", exc.eid])
+        log.append(["after-moved"])
+        try:
+            await stack.aclose()
+        except (UserExc, UserBaseExc) as exc:
+            log.append(["again-raised", exc.eid])
+    res = _run(main())
+    return {"out": res, "log": log}
+
+
 def observe(case):
+    if case["kind"] == "reentrant":
+        return {"impl": _run_reentrant(case, False), "std": _run_reentrant(case, True)}
     if case["kind"] == "unwind":
         return _observe_unwind(case)
     return {"impl": _observe_history(case), "std": _observe_history(case, std=True)}
 
 
 def model_request(case):
+    if case["kind"] == "reentrant":
+        return None
     ents = {k: {"cb": v["k"] in CB_KINDS, "none": v["none"], "some": v["some"]}
             for k, v in case["entries"].items()}
     if case["kind"] == "unwind":
@@ -294,6 +362,11 @@ def model_request(case):
 
 def judge(case, obs, model):
     issues = []
+    if case["kind"] == "reentrant":
+        if obs["impl"] != obs["std"]:
+            issues.append(Issue("oracle", {"asyncstdlib": obs["impl"], "contextlib": obs["std"]},
+                                "differs-from-contextlib-when-an-exit-touches-its-stack:" + case["act"]))
+        return issues
     impl = obs["impl"]
     if case["kind"] == "unwind":
         for ref in ("nested", "std"):
@@ -343,6 +416,8 @@ def features(case, obs):
         f.append("body=" + ("normal" if case["body"] is None else "raises"))
         for i in case["stack"]:
             f.append("kind=" + case["entries"][str(i)]["k"])
+    elif case["kind"] == "reentrant":
+        f += ["reentrant:" + case["act"], "n=%d" % case["n"]]
     else:
         f.append("ops=%d" % len(case["ops"]))
         for op in case["ops"]:
@@ -366,6 +441,7 @@ def _entry(i, kind, beh):
 
 
 def cases(tier, rng):
+    yield from _reentrant_cases()
     maxn = 3 if tier == "quick" else 4
     for n in range(0, maxn + 1):
         for behs in itertools.product(BEH, repeat=n):
@@ -415,6 +491,8 @@ def random_history(rng, nops):
 def search_cases(broken_cases, rng):
     """neighbours of disagreeing cases + a time-boxed random sweep, judged by the direct oracle only"""
     for case in broken_cases:
+        if case["kind"] == "reentrant":
+            continue
         if case["kind"] == "unwind":
             for body in (None, BODY_EXC):
                 for k in KINDS:
